@@ -199,6 +199,12 @@ def run(ck):
     w14 = extract_writer(ck)
     if not orientation_column(ck, "C11.14", w14):
         ck.ok("C11.14", "column:Orientation", where(w14.fn, w14.frame_node), "Orientation is not derived from coordinates", "")
+    ck.clause("C11.15", "a segment's aligned pairs are not ordered by label number (start / end of a '-' segment would be exchanged; as "
+                        "C15.13), and the chainer's pre-order key does not look at the strand (as C14.6)")
+    from .c15 import segment_endpoints
+    segment_endpoints(ck, "C11.15", only_label_numbers=True)
+    from . import c14 as _c14
+    _c14.run(RuleView(ck, {"C14.6": "C11.15"}, only_constructs=(":pre-order:strand",)))
     ck.clause("C11.13", "whether two neighbouring segments are in conflict is decided from coordinates alone: no pre-test on label "
                         "numbers, which descend along a reverse-strand query (as C15.6)")
     from .c15 import conflict_decision
